@@ -85,16 +85,28 @@ class C23(core.Check):
     def extract(self):
         return xstore.extract()
 
+    def witnesses(self):
+        """replays of known finding C23-K1 (theorem dusq_mirror_fails_without_guard); appended at the END of the generated cases"""
+        q = (b"q",)
+        return [
+            ("dusq", q, [("push", 0, 1), ("push", 0, 5), ("reopen",), ("pull", 0), ("pull", 0)]),
+            ("dusq", q, [("push", 0, 1), ("push", 0, 5), ("push", 0, 6), ("reopen",), ("pull", 0), ("pull", 0)]),
+            ("dusq", q, [("extend", 0, [1, 5, 2]), ("remove", 0, 5), ("reopen",)]),
+        ]
+
     def corpus(self):
         q = (b"q",)
         return [
-            ("dusq", q, [("push", 0, 1), ("remove", 0, 1), ("remove", 0, 1), ("push", 0, 2), ("push", 0, 0), ("remove", 0, 2), ("reopen",), ("pull", 0)]),   # F37
-            ("dusq", q, [("push", 0, 1), ("push", 0, 5), ("push", 0, 6), ("reopen",), ("pull", 0), ("pull", 0)]),                                       # F38
-            ("dusq", q, [("extend", 0, [1, 5, 2]), ("remove", 0, 5), ("reopen",)]),                                                                      # F38 via update/remove
+            # F37 regression: remove of present / absent values, then reopen
+            ("dusq", q, [("push", 0, 1), ("remove", 0, 1), ("remove", 0, 1), ("push", 0, 2), ("push", 0, 0), ("remove", 0, 2), ("reopen",), ("pull", 0)]),
             ("durq", q, [("push", 0, 1), ("push", 0, 1), ("extend", 0, [2, 3, 1]), ("reopen",), ("pull", 0), ("reopen",), ("pull", 0), ("clear", 0), ("clear", 0),
                          ("reopen",), ("pullx", 0), ("pull", 0), ("extend", 0, []), ("count", 0, 1)]),
             ("dusq", (b"a", b"a_b"), [("extend", 0, [0, 1, 1, 2]), ("push", 1, 1), ("pull", 0), ("reopen",), ("push", 0, 0), ("push", 0, 1), ("clear", 1), ("reopen",), ("pullx", 1)]),
             ("durq", (b"a", b"a.b"), [("push", 0, 0), ("push", 1, 1), ("push", 0, 2), ("reopen",), ("pull", 0), ("pull", 1), ("pull", 0), ("pull", 0)]),
+            # partial-duplicate update, update of only known values, reopen of an emptied queue
+            ("dusq", q, [("extend", 0, [0, 1]), ("extend", 0, [1, 2, 0, 3]), ("extend", 0, [3, 3]), ("reopen",), ("pull", 0), ("pull", 0), ("pull", 0), ("pull", 0), ("reopen",), ("pull", 0)]),
+            # more than 16 values: ordinal carry, pulls from the front, reopen
+            ("durq", q, [("extend", 0, [0, 1, 2, 3, 4])] * 4 + [("pull", 0), ("reopen",), ("pull", 0), ("push", 0, 0), ("reopen",), ("count", 0, 0)]),
         ]
 
     def exhaustive(self, tier):
@@ -111,6 +123,12 @@ class C23(core.Check):
         return out, "every history of <= 4 ops from {push v0, push v1, pull, extend [v1,v0,v1], clear, reopen (+ remove v0, remove v1 for dusq)} on one queue"
 
     def generate(self, rng, n, tier):
+        for case in self._generate(rng, n, tier):
+            yield case
+        for case in self.witnesses():
+            yield case
+
+    def _generate(self, rng, n, tier):
         for _ in range(n):
             kind = rng.choice(["durq", "dusq", "dusq"])
             keys = rng.choice(KEYSETS)
